@@ -22,7 +22,7 @@ from ..core.framework import REPO, Ctx, b2s, s2b
 
 SPEC = {
     "modules": ["HC.Props.C17"],
-    "extracted": ["Guards"],
+    "extracted": ["Guards", "WsgiSites"],
     "technique": "Lean 4 theorems over an executable model of WSGIWrapper (receive loop with the extracted body-limit comparator, "
                  "_build_environ as an insertion-ordered dictionary fold, run_app over abstract applications = call-phase / "
                  "iteration-phase action scripts with ghost counters for application calls, sync_spawn and close()) "
@@ -43,13 +43,17 @@ SPEC = {
                   "exactly one final empty more_body=False message (output_fidelity); for ANY application the emitted messages are "
                   "nothing or one start followed by a prefix of its chunks, all of them when no exception leaves run_app, and the final "
                   "message is appended iff no exception (emitted_is_prefix, no_exception_complete, final_iff_no_exception); close() is "
-                  "called at most once, never without an iterable. For the run_app shape of the pinned tree (check right after the call) "
+                  "called at most once, never without an iterable, and - the name run_app iterates and closes being bound to the object "
+                  "the application returned, which is read off the source on every run (body_binding_returned) - it is that object's "
+                  "close() that is called, also when the object is not its own iterator (a container whose __iter__ hands out a "
+                  "generator or another iterator) and when __iter__ itself raises (close_once, iter_raises_closed). For the run_app shape of the pinned tree (check right after the call) "
                   "the lazy clause and close_once hold only as close_once_partial (start_response called before the callable returned) "
                   "and the negations are proved on concrete witnesses (lazy_start_rejected_as_is, close_once_fails_as_is); for the repaired "
                   "shape (check at the first chunk, inside try/finally) the full statements eager_lazy_same, lazy_output_fidelity and "
                   "close_once are proved. Which shape the current source has is read from its AST on every run and confirmed by the "
                   "correspondence run.",
-    "level_note": "Trusted: Lean kernel; extractor (comparator of `len(body) > self.max_body_size`); the run_app shape detector in "
+    "level_note": "Trusted: Lean kernel; extractor (comparator of `len(body) > self.max_body_size`; what `response_body` is bound to, "
+                  "iterated and closed in run_app); the run_app shape detector in "
                   "harness/gen/C17.py (an unrecognised shape breaks the tie; a wrong guess shows up as model/implementation "
                   "disagreement); hand-written model HC/Pure/Wsgi.lean tied by differential execution only; CPython str.upper/lower/"
                   "encode and int() are modelled for Latin-1 names and ASCII decimal status codes (int() accepts more spellings; the "
@@ -59,7 +63,9 @@ SPEC = {
     "rule": "direct calls: _build_environ on generated scopes (paths with %-escapes / non-ASCII / non-BMP, root_path matching, "
             "non-matching, trailing slash, equal to the path; repeated and case-variant headers, all 256 one-byte header names; "
             "ASCII and non-ASCII queries; server/client/scheme present or absent) and WSGIWrapper.__call__ on asyncio and trio with "
-            "scripted applications (list, generator, iterator with/without close, eager/lazy/late/no start_response, raising "
+            "scripted applications (list, generator, iterator with/without close, iterable containers with/without close whose "
+            "__iter__ returns a separate generator / iterator with or without a close of its own / list iterator or raises, "
+            "eager/lazy/late/no start_response, raising "
             "before/after start_response and during iteration, invalid status/header arguments, empty chunks, double start) x body "
             "sizes limit-1/limit/limit+1 in one or several messages; the shape x size grid is enumerated exhaustively, the rest is "
             "random. distinct = (family, path/root class, header-repeat class | limit, relation, chunk count | application shape, "
@@ -413,7 +419,9 @@ class Rec:
         self.calls = 0
         self.call_threads: List[int] = []
         self.iter_threads: List[int] = []
-        self.close_calls = 0
+        self.close_calls = 0          # close() of the object the application returned
+        self.inner_close_calls = 0    # close() of a separate iterator handed out by that object's __iter__
+        self.iter_calls = 0           # __iter__ invocations on an iterable container
         self.close_threads: List[int] = []
         self.environ: Optional[dict] = None
         self.raw_environ: Optional[dict] = None
@@ -449,6 +457,36 @@ def build_app(script: dict, rec: Rec) -> Callable:
             rec.close_calls += 1
             rec.close_threads.append(threading.get_ident())
 
+    class InnerIt(It):
+        """a separate iterator (not the object the application returned)"""
+
+    class InnerItClose(InnerIt):
+        def close(self):
+            rec.inner_close_calls += 1
+
+    class Container:
+        """an iterable that is not its own iterator: PEP 3333 asks for close() of *this* object"""
+
+        def __init__(self, sr):
+            self.sr = sr
+
+        def __iter__(self):
+            rec.iter_calls += 1
+            rec.iter_threads.append(threading.get_ident())
+            if script.get("iter_raises"):
+                raise AppError("scripted failure in __iter__")
+            inner = script.get("inner", "gen")
+            if inner == "gen":
+                return run_iter(self.sr)
+            if inner == "list":
+                return iter([s2b(a[1]) for a in acts])
+            return (InnerItClose if inner == "iter_close" else InnerIt)(self.sr)
+
+    class ContainerClose(Container):
+        def close(self):
+            rec.close_calls += 1
+            rec.close_threads.append(threading.get_ident())
+
     def app(environ, start_response):
         rec.calls += 1
         rec.call_threads.append(threading.get_ident())
@@ -464,6 +502,8 @@ def build_app(script: dict, rec: Rec) -> Callable:
             out: Any = [s2b(a[1]) for a in acts]
         elif kind == "gen":
             out = rec.gen = run_iter(start_response)
+        elif kind == "iterable":
+            out = (ContainerClose if script["has_close"] else Container)(start_response)
         elif script["has_close"]:
             out = ItClose(start_response)
         else:
@@ -475,7 +515,11 @@ def build_app(script: dict, rec: Rec) -> Callable:
 
 
 def model_app(script: dict) -> dict:
-    return {"call": script["call"], "call_raises": script["call_raises"], "iter": script["iter"], "has_close": script["has_close"]}
+    kind = script["kind"]
+    return {"call": script["call"], "call_raises": script["call_raises"], "iter": script["iter"], "has_close": script["has_close"],
+            "self_iter": kind in ("gen", "iter"),                 # iter(list) and iter(container) are other objects
+            "iter_raises": kind == "iterable" and bool(script.get("iter_raises")),
+            "iter_has_close": kind == "iterable" and script.get("inner", "gen") in ("gen", "iter_close")}
 
 
 def _valid_start(st: str, hs: List[List[str]]) -> bool:
@@ -498,7 +542,8 @@ def classify(script: dict) -> dict:
     first_yield = next((i for i, a in enumerate(acts) if a[0] == "yield"), len(acts))
     starts_before = [a for a in acts[:first_yield] if a[0] == "start"]
     starts_after = [a for a in acts[first_yield:] if a[0] == "start"]
-    iter_fault = any(a[0] == "raise" or (a[0] == "start" and not _valid_start(a[1], a[2])) for a in acts)
+    iter_raises = script["kind"] == "iterable" and bool(script.get("iter_raises"))
+    iter_fault = iter_raises or any(a[0] == "raise" or (a[0] == "start" and not _valid_start(a[1], a[2])) for a in acts)
     if call_fault:
         shape = "call_raises"
     elif script["call"]:
@@ -572,6 +617,7 @@ async def _drive(case: dict, sync_spawn: Callable, call_soon: Callable, loop_thr
         exc = type(e).__name__
     gen_state = None if rec.gen is None else inspect.getgeneratorstate(rec.gen)
     return {"sent": [canon_msg(m) for m in sent], "exc": exc, "app_calls": rec.calls, "close_calls": rec.close_calls,
+            "inner_close_calls": rec.inner_close_calls, "iter_calls": rec.iter_calls,
             "spawns": spawns[0], "gen_state": gen_state, "environ": rec.environ, "raw_environ": rec.raw_environ, "returned": rec.returned,
             "off_loop": all(t != loop_thread for t in rec.call_threads + rec.iter_threads + rec.close_threads),
             "sends_on_loop": all(t == loop_thread for t in send_threads), "unread": len(queue)}
@@ -637,10 +683,27 @@ def shape_grid() -> List[Tuple[str, dict]]:
     st = ["start", s200, hs]
     two = _ys(["chunk1", "chunk2"])
 
-    def app(call, iter_, kind, has_close, call_raises=False):
-        return {"call": call, "call_raises": call_raises, "iter": iter_, "kind": kind, "has_close": has_close}
+    def app(call, iter_, kind, has_close, call_raises=False, inner=None, iter_raises=False):
+        d = {"call": call, "call_raises": call_raises, "iter": iter_, "kind": kind, "has_close": has_close}
+        if kind == "iterable":
+            d.update(inner=inner or "gen", iter_raises=iter_raises)
+        return d
 
     return [
+        # iterables that are not their own iterator (a resource-holding response object with a generator __iter__ ...)
+        ("container_close_generator_eager", app([[s200, hs]], two, "iterable", True, inner="gen")),
+        ("container_close_generator_lazy", app([], [st] + two, "iterable", True, inner="gen")),
+        ("container_close_iterator", app([[s200, hs]], two, "iterable", True, inner="iter")),
+        ("container_close_iterator_with_close", app([[s200, hs]], two, "iterable", True, inner="iter_close")),
+        ("container_close_list_iterator", app([[s200, hs]], two, "iterable", True, inner="list")),
+        ("container_noclose_iterator_with_close", app([[s200, hs]], two, "iterable", False, inner="iter_close")),
+        ("container_close_no_chunks", app([[s200, hs]], [], "iterable", True, inner="gen")),
+        ("container_close_raise_mid", app([[s200, hs]], _ys(["chunk1"]) + [["raise"]] + _ys(["chunk2"]), "iterable", True, inner="gen")),
+        ("container_close_raise_mid_iterator", app([[s200, hs]], _ys(["chunk1"]) + [["raise"]], "iterable", True, inner="iter_close")),
+        ("container_close_no_start", app([], _ys(["result"]), "iterable", True, inner="gen")),
+        ("container_close_iter_raises", app([[s200, hs]], two, "iterable", True, inner="gen", iter_raises=True)),
+        ("container_close_iter_raises_no_start", app([], two, "iterable", True, inner="iter", iter_raises=True)),
+        ("container_noclose_iter_raises", app([[s200, hs]], two, "iterable", False, inner="gen", iter_raises=True)),
         ("list", app([[s200, hs]], two, "list", False)),
         ("list_empty_chunks", app([[s200, hs]], _ys(["", "a", "", ""]), "list", False)),
         ("list_no_chunks", app([[s200, hs]], [], "list", False)),
@@ -673,7 +736,7 @@ def shape_grid() -> List[Tuple[str, dict]]:
 def gen_app(rng) -> dict:
     r = rng.random()
     chunks = [rng.choice(CHUNKS) for _ in range(rng.choice([0, 1, 2, 2, 3, 5]))]
-    kind = rng.choice(["list", "gen", "iter", "iter"])
+    kind = rng.choice(["list", "gen", "iter", "iter", "iterable", "iterable"])
     has_close = True if kind == "gen" else (False if kind == "list" else rng.random() < 0.7)
     call: List[Any] = []
     acts: List[Any] = _ys(chunks)
@@ -712,7 +775,11 @@ def gen_app(rng) -> dict:
             acts = acts[:k] + [["start"] + _start(rng)] + acts[k:]
     if kind == "list" and any(a[0] != "yield" for a in acts):
         kind, has_close = "iter", rng.random() < 0.7
-    return {"call": call, "call_raises": call_raises, "iter": acts, "kind": kind, "has_close": has_close}
+    app = {"call": call, "call_raises": call_raises, "iter": acts, "kind": kind, "has_close": has_close}
+    if kind == "iterable":
+        inners = ["gen", "gen", "iter", "iter_close"] + (["list"] if all(a[0] == "yield" for a in acts) else [])
+        app.update(inner=rng.choice(inners), iter_raises=rng.random() < 0.15)
+    return app
 
 
 def split_body(rng, body: bytes, parts: int) -> List[dict]:
@@ -860,11 +927,13 @@ def check_wrapper(ctx: Ctx, cases: List[dict]) -> None:
                 ctx.distinct(["limit", c["max"], rel, len(c["msgs"]), c.get("runner")])
         else:
             ctx.count("run.shape", cl["shape"] if kind == "http" else kind)
-            ctx.count("run.kind", c["app"]["kind"])
+            ctx.count("run.kind", c["app"]["kind"] + (f":{c['app'].get('inner')}" + ("+iter_raises" if c["app"].get("iter_raises") else "")
+                                                      if c["app"]["kind"] == "iterable" else ""))
             ctx.count("run.runner", c.get("runner"))
             ctx.count("run.body", rel)
             if kind == "http" and cl["iterable_returned"]:
-                ctx.distinct(["run", cl["shape"], c["app"]["kind"], c["app"]["has_close"], cl["iter_fault"], c.get("runner"), rel, in_root])
+                ctx.distinct(["run", cl["shape"], c["app"]["kind"], c["app"].get("inner"), bool(c["app"].get("iter_raises")),
+                              c["app"]["has_close"], cl["iter_fault"], c.get("runner"), rel, in_root])
         ctx.sample({k: v for k, v in c.items()}, cap=4 if fam == "run_app" else 3)
         # ---------------- monitors (independent of the model) ----------------
         final = {"type": "body", "body": "", "more": False}
@@ -898,9 +967,11 @@ def check_wrapper(ctx: Ctx, cases: List[dict]) -> None:
                                   dict(sig_base, shape=cl["shape"]))
                 # close(): exactly once on every path on which the callable returned an iterable
                 if o["returned"]:
-                    if c["app"]["kind"] == "iter" and c["app"]["has_close"] and o["close_calls"] != 1:
-                        ctx.violation("close_once", c, {"close_calls": o["close_calls"], "exc": o["exc"], "sent": o["sent"]},
-                                      dict(sig_base, shape=cl["shape"]))
+                    # (the object the application returned: an iterator, or a container that is not its own iterator)
+                    if c["app"]["kind"] in ("iter", "iterable") and c["app"]["has_close"] and o["close_calls"] != 1:
+                        ctx.violation("close_once", c, {"close_calls": o["close_calls"], "exc": o["exc"], "sent": o["sent"],
+                                                        "iterator_close_calls": o["inner_close_calls"], "iter_calls": o["iter_calls"]},
+                                      dict(sig_base, shape=cl["shape"], kind=c["app"]["kind"]))
                     if c["app"]["kind"] == "gen" and o["gen_state"] != inspect.GEN_CLOSED:
                         ctx.violation("close_once", c, {"generator_state": o["gen_state"], "exc": o["exc"], "sent": o["sent"]},
                                       dict(sig_base, shape=cl["shape"]))
@@ -935,14 +1006,16 @@ def check_wrapper(ctx: Ctx, cases: List[dict]) -> None:
                 diffs.append("environ")
             if m["iter_obtained"] != o["returned"]:
                 diffs.append("iter_obtained")
-            if c["app"]["kind"] == "iter" and m["close_calls"] != o["close_calls"]:
+            if c["app"]["kind"] in ("iter", "iterable") and m["close_calls"] != o["close_calls"]:
                 diffs.append("close_calls")
+            if c["app"]["kind"] == "iterable" and c["app"].get("inner") == "iter_close" and m["iter_close_calls"] != o["inner_close_calls"]:
+                diffs.append("iter_close_calls")
             if c["app"]["kind"] == "gen" and o["returned"] and (m["close_calls"] == 1) != (o["gen_state"] == inspect.GEN_CLOSED):
                 diffs.append("generator closed")
             if m["spawns"] != o["spawns"]:
                 diffs.append("spawns")
             if diffs:
-                ctx.disagree("c17.run_app", c, {k: m[k] for k in ("sent", "exc", "app_calls", "close_calls", "iter_obtained", "waiting")},
+                ctx.disagree("c17.run_app", c, {k: m[k] for k in ("sent", "exc", "app_calls", "close_calls", "iter_close_calls", "iter_obtained", "waiting")},
                              dict(_brief(o), differs=diffs))
             # the receive loop alone
             if kind == "http":
@@ -957,7 +1030,8 @@ def check_wrapper(ctx: Ctx, cases: List[dict]) -> None:
 
 
 def _brief(o: dict) -> dict:
-    return {k: o[k] for k in ("sent", "exc", "app_calls", "spawns", "close_calls", "gen_state", "returned", "off_loop", "unread")}
+    return {k: o[k] for k in ("sent", "exc", "app_calls", "spawns", "close_calls", "inner_close_calls", "iter_calls", "gen_state", "returned",
+                              "off_loop", "unread")}
 
 
 def _setup(ctx: Ctx) -> None:
